@@ -181,7 +181,7 @@ func init() {
 	// MultiScalarMult / MultiScalarMultVartime for list lengths above the ones proved (4..8)
 	boundedHarnesses["msm_lengths"] = boundedHarness{
 		pkgDir: ".",
-		bound:  "list lengths 4..8; for each length 12 input patterns (random; a zero scalar; all scalars zero; an identity point; two equal points; P and -P with equal scalars; s and -s on equal points; receiver = last point; receiver = first point; all points the identity; all scalars N-1; the same Point object twice) x 3 deterministic seeds, both functions: 360 cases compared with the sum of ScalarMult results",
+		bound:  "list lengths 4..40 (every length) with 12 input patterns each (random; a zero scalar; all scalars zero; an identity point; two equal points; P and -P with equal scalars; s and -s on equal points; receiver = last point; receiver = first point; all points the identity; all scalars N-1; the same Point object twice), and lengths 63..66, 95..97, 127..130, 255..257 with 4 patterns (random; a zero scalar; receiver = last point; two equal points); both functions; deterministic inputs; results compared with the sum of ScalarMult results",
 		src: `package secp256k1
 
 import (
@@ -209,9 +209,18 @@ func TestVerifBoundedMSMLengths(t *testing.T) {
 	}
 	rndPoint := func() *Point { return NewIdentityPoint().ScalarBaseMult(rndScalar()) }
 	nMinus1 := NewScalar().Negate(NewScalar().One())
-	for n := 4; n <= 8; n++ {
-		for pat := 0; pat < 12; pat++ {
-			for seed := 0; seed < 3; seed++ {
+	var lens []int
+	for n := 4; n <= 40; n++ {
+		lens = append(lens, n)
+	}
+	lens = append(lens, 63, 64, 65, 66, 95, 96, 97, 127, 128, 129, 130, 255, 256, 257)
+	for _, n := range lens {
+		pats := []int{0, 1, 2, 3, 4, 5, 6, 7, 8, 9, 10, 11}
+		if n > 40 {
+			pats = []int{0, 1, 7, 4}
+		}
+		for _, pat := range pats {
+			for seed := n % 3; seed <= n%3; seed++ {
 				for fn := 0; fn < 2; fn++ {
 					ss := make([]*Scalar, n)
 					ps := make([]*Point, n)
